@@ -27,11 +27,13 @@ var nameShapes = []string{
 	"x/a/", "x/a//b", "x/a/../b", "x/a/.", "x/a/\xff", "d/x/", "a/b/",
 	"\xff", "a/\xc3", "\xc0\xaf", "\xed\xa0\x80", "\xf4\x90\x80\x80", "d/\x80", "\xe2\x82", "d/f\xfe",
 	// valid ones, including bytes that are separators elsewhere
+	// valid although they look like decoding failures: U+FFFD itself, other non-characters, a BOM, a combining mark
+	"caf\uFFFD", "d/\uFFFD", "\uFFFE", "\uFEFFx", "e\u0301", "\U0010FFFF",
 	".", "x", "d/x", "a\\b", "c:", "c:\\x", "d/a\\b", "é", "d/日本", "a b", "...", "d/..x", "x..", "-", "~", "a\x00b",
 }
 
 func fuzzName(r *Rng) string {
-	alpha := []string{"a", "d", "f", ".", "/", "/", "\\", ":", "\xc3", "\xa9", "\xff", "é"}
+	alpha := []string{"a", "d", "f", ".", "/", "/", "\\", ":", "\xc3", "\xa9", "\xff", "é", "\uFFFD"}
 	n := r.Range(0, 6)
 	var sb strings.Builder
 	for i := 0; i < n; i++ {
